@@ -495,6 +495,121 @@ def r05_5(run):
                                'a connect request is completed with a name instead of a connection'))
 
 
+def _lin(e, sym):
+    """linear form (const, coeff of sym) of an expression built from ints, + and the name `sym`; None otherwise"""
+    if e is None:
+        return None
+    v = const(e)
+    if isinstance(v, int) and not isinstance(v, bool):
+        return (v, 0)
+    if isinstance(e, ast.Name) and e.id == sym:
+        return (0, 1)
+    if isinstance(e, ast.BinOp) and isinstance(e.op, ast.Add):
+        a, b = _lin(e.left, sym), _lin(e.right, sym)
+        if a is None or b is None:
+            return None
+        return (a[0] + b[0], a[1] + b[1])
+    return None
+
+
+def r05_8(run):
+    """RFC 1928 reply layout, per address parser: VER REP RSV ATYP (4) | address | port (2).  With N the number of bytes
+    the guard waits for: the address is bytes [A0, N-2), the port bytes [N-2, N), exactly N bytes are consumed, the guard
+    admits exactly N buffered bytes (>= N, not > N), and every path past the guard raises exactly one success input."""
+    ci = machine(run)
+    t = table(run)
+    specs = {'_parse_ipv4_reply': (4, (10, 0)), '_parse_ipv6_reply': (4, (22, 0)), '_parse_domain_name_reply': (5, (7, 1))}
+    k = 0
+    for pname, (a0, total) in sorted(specs.items()):
+        u = MU(run, pname)
+        g = cfg_of(u)
+        syms = names_defined_by(u, lambda v: any(isinstance(x, ast.Call) and dotted(x.func) == 'struct.unpack' for x in ast.walk(v)) and '4:5' in src(v).replace(' ', ''))
+        sym = syms[0] if syms else '__nosym__'
+        # guards
+        guards = []
+        for tn in g.live:
+            if tn.kind == 'test' and _len_guard(tn.ast) is not None:
+                guards.append(tn)
+        main = None
+        for tn in guards:
+            op, bound = _len_guard(tn.ast)
+            lf = _lin(bound, sym)
+            if lf is None:
+                continue
+            # normalise to "proceed iff len >= X"
+            if isinstance(op, ast.GtE):
+                need = lf
+            elif isinstance(op, ast.Lt):
+                need = lf
+            elif isinstance(op, ast.Gt):
+                need = (lf[0] + 1, lf[1])
+            elif isinstance(op, ast.LtE):
+                need = (lf[0] + 1, lf[1])
+            else:
+                continue
+            if need[1] == total[1] and (main is None or need[0] > main[1][0]):
+                main = (tn, need)
+        k += 1
+        run.ob('R05.8', u, main[0].ast if main else u.node, '%s proceeds as soon as the %s bytes of the reply are buffered' % (pname, 'N+7' if total[1] else total[0]),
+               main is not None and main[1] == total, slot='need:%s' % pname,
+               message='%s waits for %s bytes; the reply is complete with %s: one byte more is awaited (the attempt hangs until the peer sends application data) '
+                       'or fewer are accepted (garbage parsed)' % (pname, main[1] if main else None, total))
+        for n in walk_unit(u):
+            if isinstance(n, ast.Subscript) and dotted(n.value) == 'self._data' and isinstance(n.slice, ast.Slice):
+                lo, hi = _lin(n.slice.lower, sym) if n.slice.lower is not None else None, _lin(n.slice.upper, sym) if n.slice.upper is not None else None
+                par = [p_ for p_ in walk_unit(u) if isinstance(p_, ast.Assign) and any(x is n for x in ast.walk(p_.value))]
+                tgt = assigned_targets(par[0])[0] if par and assigned_targets(par[0]) else None
+                role = None
+                if tgt == 'self._data':
+                    role = 'consume'
+                elif par and any(isinstance(x, ast.Call) and dotted(x.func) == 'struct.unpack' and const(x.args[0]) in ('H', '!H', '>H') for x in ast.walk(par[0].value)):
+                    role = 'port'
+                elif (lo, hi) == ((4, 0), (5, 0)):
+                    role = 'len'
+                elif par and tgt and tgt != 'self._data':
+                    role = 'addr'
+                if role is None:
+                    continue
+                k += 1
+                if role == 'consume':
+                    ok = lo == total and hi is None
+                    want = '[%s:]' % (total,)
+                elif role == 'port':
+                    ok = lo == (total[0] - 2, total[1]) and hi == total
+                    want = '[N-2:N] with N=%s' % (total,)
+                elif role == 'addr':
+                    ok = lo == (a0, 0) and hi == (total[0] - 2, total[1])
+                    want = '[%d:N-2] with N=%s' % (a0, total)
+                else:
+                    ok = True
+                    want = ''
+                run.ob('R05.8', u, n, '%s takes the %s bytes of the reply from the right place' % (pname, role), ok, slot='layout:%s:%s' % (pname, role),
+                       message='%s reads the %s as %s, RFC 1928 puts it at %s (as linear forms (const, x addrlen): %s..%s)' % (pname, role, src(n), want, lo, hi))
+        # every path on which the reply was consumed raises exactly one success input
+        for p_ in g.paths(follow_exc=False):
+            run.paths_enumerated += 1
+            if p_.exit == 'raise':
+                continue
+            consumed = any(n.kind == 'stmt' and isinstance(n.ast, ast.Assign) and 'self._data' in assigned_targets(n.ast) for n, _ in p_.steps)
+            if not consumed:
+                continue
+            ins = [m for n, _ in p_.steps if n.kind in ('stmt', 'test') for a in node_asts(n)
+                   if isinstance(a, ast.Call) and (dotted(a.func) or '').startswith('self.') and (m := (dotted(a.func) or '').split('.')[-1]) in SUCCESS_INPUTS]
+            run.ob('R05.8', u, u.node, 'a consumed reply raises exactly one success input', len(ins) == 1, slot='one-input:%s' % pname,
+                   message='%s consumes the reply and then raises %s on %s: the attempt is never resolved (or resolved twice)' % (pname, ins or 'no input', p_.describe(6)))
+    run.floor('R05.8', 'layout obligations', k, 10)
+    # a wrong protocol version in the request reply fails the attempt
+    pr = MU(run, '_parse_request_reply')
+    gpr = cfg_of(pr)
+    vt = [tn for tn in gpr.live if tn.kind == 'test' and isinstance(tn.ast, ast.Compare) and const(tn.ast.comparators[0]) == 5 and isinstance(tn.ast.ops[0], (ast.NotEq, ast.Eq))]
+    for tn in vt:
+        bad_lab = 'T' if isinstance(tn.ast.ops[0], ast.NotEq) else 'F'
+        r = gpr.reachable([s_ for lab, s_ in tn.succ if lab == bad_lab], avoid=lambda n: any(is_call_to(a, 'self.reply_error') for a in node_asts(n)), follow_exc=False)
+        run.ob('R05.8', pr, tn.ast, 'a request reply with a wrong version fails the attempt', not any(e in r for e in gpr.normal_exits()), slot='bad-version-fails',
+               message='_parse_request_reply can return on a wrong-version reply without raising reply_error: the attempt hangs')
+    run.floor('R05.8', 'version tests in _parse_request_reply', len(vt), 1)
+
+
 def r05_6(run):
     ci = machine(run)
     t = table(run)
@@ -574,6 +689,7 @@ RULES = [
     ('R05.3', 'dominance: address parsing behind version==5 and REP==succeeded; header layout VER REP RSV ATYP; error built from REP', r05_3),
     ('R05.4', 'SocksError table: distinct codes covering 1..8; unknown code preserved', r05_4),
     ('R05.5', 'sibling agreement: every address parser raises the input matching the request type (path enumeration over the CONNECT atom)', r05_5),
+    ('R05.8', 'RFC 1928 reply layout per address parser (linear forms over the name length): need = N, address [A0:N-2], port [N-2:N], consume [N:], one success input per consumed reply; wrong version fails', r05_8),
     ('R05.6', '_when_done fired only by machine outputs with the right values; SingleObserver is a one-shot latch', r05_6),
     ('R05.7', 'I/O glue: transport handed to the application protocol, bytes fed/written unchanged, whole buffer delivered and cleared', r05_7),
 ]
@@ -581,6 +697,12 @@ RULES = [
 from ..selftest import M  # noqa: E402
 F = 'txtorcon/socks.py'
 MUTANTS = [
+    M('ipv6-waits-one-more', F, "        if len(self._data) >= 22:", "        if len(self._data) > 22:", ['R05.8']),
+    M('ipv6-addr-offset', F, "            addr = self._data[4:20]", "            addr = self._data[5:20]", ['R05.8']),
+    M('ipv4-port-3-bytes', F, "            port = struct.unpack('H', self._data[8:10])[0]", "            port = struct.unpack('H', self._data[8:11])[0]", ['R05.8']),
+    M('ipv6-no-input', F, "            if self._req_type == 'CONNECT':\n                self.reply_ipv6(addr, port)", "            if self._req_type == 'CONNECT':\n                pass", ['R05.8']),
+    M('domain-port-offset', F, "        port = struct.unpack('H', self._data[5 + addrlen:5 + addrlen + 2])[0]", "        port = struct.unpack('H', self._data[6 + addrlen:5 + addrlen + 2])[0]", ['R05.8']),
+    M('bad-version-silent', F, "        if version != 5:\n            self.reply_error(SocksError(\n                \"Expected version 5, got {}\".format(version)))\n            return\n\n        if reply != self.SUCCEEDED:", "        if version != 5:\n            return\n\n        if reply != self.SUCCEEDED:", ['R05.8']),
     M('no-reparse-after-method-reply', F, "                if self._data:\n                    self.got_data()\n            else:", "            else:", ['R05.1']),
     M('version-reply-clears-buffer', F, "            self._data = self._data[2:]\n", "            self._data = b''\n", ['R05.2']),
     M('reply-length-cap', F, "        if len(self._data) < 8:\n            return\n        msg = self._data[:4]", "        if len(self._data) < 8:\n            return\n        if len(self._data) > 262:\n            self.reply_error(SocksError('too long'))\n            return\n        msg = self._data[:4]", ['R05.2']),
